@@ -446,11 +446,12 @@ def check_dispatch(res, facts):
             continue
         fn = fns[0]
         names = [t["f"].get("name") for _, t in fn.calls()]
-        dbl = [bb for bb, t in fn.calls() if t["f"].get("name") == "double_in_place"]
+        # the doubling of the POINT (proved under R-POLY.sw), not a field element's double_in_place
+        dbl = [bb for bb, t in fn.calls() if t["f"].get("name") in ("double_in_place", "double") and (SWP in (t["f"].get("self") or "") or SWP in (t["f"].get("res") or "") or SWP in (t["f"].get("path") or ""))]
         zero = [bb for bb, t in fn.calls() if t["f"].get("name") == "zero" and "Zero" in (t["f"].get("trait") or "")]
         cd = DF.control_deps(fn)
         if not dbl:
-            rule.bad(label + "|P+P", "no doubling on the equal-points arm: with H = 0 the general formula returns Z3 = 0 for P + P", fn.loc)
+            rule.bad(label + "|P+P", "the equal-points arm does not hand over to the point doubling (double_in_place, proved under R-POLY.sw): with H = 0 the general formula returns Z3 = 0 for P + P, and a doubling formula written out in place is not covered by any proof here (e.g. the a = 0 form M = 3*XX on a curve with a != 0)", fn.loc)
         elif not zero:
             rule.bad(label + "|P-P", "no identity result on the opposite-points arm", fn.loc)
         else:
